@@ -48,6 +48,10 @@ type Case interface {
 	Judge(rs []Res, env *Env) Outcome
 }
 
+// SpreadCase: the requests of the case are to run in DIFFERENT worker processes (each with its own history),
+// so that state surviving inside one process cannot make both sides of a relation wrong in the same way.
+type SpreadCase interface{ Spread() bool }
+
 // SeqCase: the requests form a history that must run in order on one fresh
 // worker process.
 type SeqCase interface{ Sequential() bool }
@@ -71,6 +75,7 @@ func RunCases(env *Env, cases []Case) []Outcome {
 	outs := make([]Outcome, len(cases))
 	var groups [][]Req
 	groupOf := make([]int, len(cases))
+	spreadOf := map[int]int{}
 	var seqIdx []int
 	var seqs [][]Req
 	for i, c := range cases {
@@ -79,6 +84,15 @@ func RunCases(env *Env, cases []Case) []Outcome {
 			seqIdx = append(seqIdx, i)
 			seqs = append(seqs, rq)
 			groupOf[i] = -1
+			continue
+		}
+		if sp, ok := c.(SpreadCase); ok && sp.Spread() {
+			// one group per request: the requests of the case land in different worker processes
+			spreadOf[i] = len(groups)
+			for _, q := range rq {
+				groups = append(groups, []Req{q})
+			}
+			groupOf[i] = -2
 			continue
 		}
 		groupOf[i] = len(groups)
@@ -95,7 +109,13 @@ func RunCases(env *Env, cases []Case) []Outcome {
 		if k, ok := isSeq[i]; ok {
 			rs = seqRes[k]
 		} else {
-			rs = res[groupOf[i]]
+			if groupOf[i] == -2 {
+				for k := 0; k < len(c.Reqs()); k++ {
+					rs = append(rs, res[spreadOf[i]+k]...)
+				}
+			} else {
+				rs = res[groupOf[i]]
+			}
 		}
 		infra := ""
 		for _, r := range rs {
